@@ -26,6 +26,25 @@ def preds(rng):
             X.dotfn(X.cmpop("<:", d, X.set_([X.num(1), X.tup([("@", X.num(0)), ("@item", X.num(1))]), X.tup([("a", X.num(1))])])))]
 
 
+def members_of(e):
+    """the members of a literal, as ASTs (so that with / without hit members that are really there)"""
+    N = X.num
+    k = e[0]
+    if k == "str":
+        return [X.tup([("@", N(e[2] + i)), ("@char", N(ord(c)))]) for i, c in enumerate(e[1])]
+    if k == "bytes":
+        return [X.tup([("@", N(e[2] + i)), ("@byte", N(b))]) for i, b in enumerate(e[1])]
+    if k == "arr":
+        return [X.tup([("@", N(e[2] + i)), ("@item", x)]) for i, x in enumerate(e[1]) if x is not None]
+    if k == "dict":
+        return [X.tup([("@", a), ("@value", b)]) for a, b in e[1]]
+    if k == "rel":
+        return [X.tup(list(zip(e[1], r))) for r in e[2]]
+    if k == "set":
+        return list(e[1])
+    return []
+
+
 def gen_cases(rng, tier):
     P = pool.base_pool()
     names = sorted(P)
@@ -60,6 +79,17 @@ def gen_cases(rng, tier):
                 for op in BIN + (SUBS if tier == "thorough" else [rng.choice(SUBS)]):
                     asts.append(("twin %s %s %s" % (x, op, y), (X.binop if op in BIN else X.cmpop)(op, P[x], P[y])))
                 asts.append(("twin count(%s | %s)" % (x, y), X.unop("count", X.binop("|", P[x], P[y]))))
+    # the operand is still the same set after the operator ran: t = s op m, then s again (its members, count, the same op)
+    lits = [n for n in sets if members_of(P[n])]
+    for _ in range(150 if tier == "quick" else 1500):
+        a = rng.choice(lits)
+        ms = members_of(P[a])
+        m = rng.choice(ms) if rng.random() < 0.75 else P[rng.choice(members)]
+        op = rng.choice(["without", "without", "with", "&~", "|"])
+        rhs = m if op in ("with", "without") else X.set_([m])
+        s_, t_ = X.var("s_"), X.var("t_")
+        body = X.arr([t_, s_, X.unop("count", s_), X.binop(op, s_, rhs), X.unop("count", X.binop("|", t_, s_))])
+        asts.append(("reuse %s %s" % (a, op), X.let(X.pvar("s_"), P[a], X.let(X.pvar("t_"), X.binop(op, s_, rhs), body))))
     nrand = 300 if tier == "quick" else 3000
     F, Q = fns(), preds(rng)
     for _ in range(nrand):
@@ -101,7 +131,7 @@ def main(tier, seed, replay=None):
         k = (c.get("label") or "").split(" ")[0]
         labels[k] = labels.get(k, 0) + 1
     evalcheck.stats(run, cases, outs, codes,
-                    "operands from a pool of %d value-constructing programs covering every representation (offsets, holes, multi-valued dict keys, relations, union sets, 10-12 member collections) x the set-algebra operators | & &~ ~~ with without <: (<) (<=) (>) (>=) (<>) (<>=) count where => ^, plus operators applied to results of operators; each program is evaluated by syntax.EvaluateExpr and by the Coq reference interpreter (vm_compute); "
+                    "operands from a pool of %d value-constructing programs covering every representation (offsets, holes, multi-valued dict keys, relations, union sets, 10-12 member collections) x the set-algebra operators | & &~ ~~ with without <: (<) (<=) (>) (>=) (<>) (<>=) count where => ^, plus operators applied to results of operators, and an operand inspected again after with / without / &~ / | took one of its own members (`let s = A; let t = s op m; [t, s, s count, s op m, (t | s) count]`); each program is evaluated by syntax.EvaluateExpr and by the Coq reference interpreter (vm_compute); "
                     % len(pool.base_pool()) + ("thorough = every ordered pair of set-valued pool entries x every binary operator and every set x member for with/without/<: (exhaustive over the pool)" if tier == "thorough" else "quick = random sample"),
                     {"first_operand_histogram": dict(sorted(labels.items(), key=lambda kv: -kv[1])[:40]), "exhaustive": False})
     run.assumptions = ["github.com/arr-ai/frozen implements finite sets/maps for the Equal/Hash it is given",
